@@ -81,7 +81,7 @@ def pubOf (k : Nat) : Option (Nat × Nat) := toAffine (mul k gx gy)
 def decompress (x : Nat) (odd : Bool) : Option Nat :=
   if x ≥ p then none else
   let rhs := (x * x % p * x + (p - 3) * x + b) % p
-  let y := powMod rhs ((p + 1) / 4) p
+  let y := powMod rhs ((p + 1) / 4) p % p
   if y * y % p != rhs then none else
   some (if (y % 2 == 1) == odd then y else (p - y) % p)
 
